@@ -538,6 +538,9 @@ encodeResponse:
     }
     if (ssl->err != SSL_ALERT_NONE)
     {
+        /* This is always a fatal alert: flag the session as errored so
+           that it cannot be used anymore (as the TLS <1.3 decoder does). */
+        ssl->flags |= SSL_FLAGS_ERROR;
         *alertDescription = (unsigned char)ssl->err;
         *alertLevel = SSL_ALERT_LEVEL_FATAL;
         rc = tls13EncodeAlert(ssl, ssl->err, &tmp, requiredLen);
